@@ -70,7 +70,11 @@ func cacheFeedScenario(w *trace.Writer, seed int64, sc int) {
 	r := rand.New(rand.NewSource(seed))
 	targets := []string{"dev1", "dev2"}
 	ed := r.Intn(2) == 0
-	strict := !ed || r.Intn(2) == 0 // every written value distinct: nothing can be suppressed
+	// every written value is distinct, so nothing can be suppressed: with two writers of one target the event-driven
+	// test compares against the value read BEFORE the write (Look and Write are separate critical sections), and a
+	// write that lands on a leaf another writer has changed in between can be withheld although it changes the leaf -
+	// the design defines no outcome there (CacheFeed_with_suppression.cfg), so the concurrent rounds stay away from it
+	strict := true
 	opts := []cache.Option{}
 	if !ed {
 		opts = append(opts, cache.DisableEventDrivenEmulation())
